@@ -291,8 +291,8 @@ fn scenario(cfg: &Cfg, track: bool) -> Out {
             }
         }
     }
-    if w.any_actor_panicked().is_some() {
-        problems.push(("actor-died".into(), "an actor thread died".into()));
+    if let Some(dead) = w.any_actor_panicked() {
+        problems.push(("actor-died".into(), format!("an actor thread died: node {dead} {}", w.death_reason(dead))));
     }
     Out { problems, steps: w.steps, digests: w.state_digests.iter().copied().collect(), rekeyed }
 }
@@ -336,8 +336,8 @@ fn slow_links(s: usize, public: bool, one_way_ms: u64, out: &mut Partial) {
             problems.push(("first-node-does-not-know-joiner".into(), format!("the first node's table lacks joiner #{j}")));
         }
     }
-    if w.any_actor_panicked().is_some() {
-        problems.push(("actor-died".into(), "an actor thread died".into()));
+    if let Some(dead) = w.any_actor_panicked() {
+        problems.push(("actor-died".into(), format!("an actor thread died: node {dead} {}", w.death_reason(dead))));
     }
     out.add("executions", 1);
     out.add("transitions", w.steps);
